@@ -82,7 +82,23 @@ where
     let bpp = R::BITS_PER_PIXEL;
     let mut it = RawDataSlice::<R, O>::new(buf).into_iter();
     let mut obs = vec![];
-    for &(op, n) in script {
+    for (k, &(op, n)) in script.iter().enumerate() {
+        // consuming observations of the REMAINING items through provided Iterator methods an implementation may
+        // override: 3 count(), 4 last(), 5 fold() (all remaining values); they end the run
+        if op >= 3 {
+            assert!(k + 1 == script.len(), "harness: a consuming step must be the last one");
+            obs.push(match op {
+                3 => limbs(it.count()),
+                4 => opt_vb(bpp, it.last().map(|r| r.into_inner().into())),
+                _ => Value::Array(it.fold(vec![], |mut v, r| {
+                    if v.len() < 4096 {
+                        v.push(opt_vb(bpp, Some(r.into_inner().into())));
+                    }
+                    v
+                })),
+            });
+            return obs;
+        }
         obs.push(match op {
             0 => opt_vb(bpp, it.next().map(|r| r.into_inner().into())),
             1 => opt_vb(bpp, it.nth(n).map(|r| r.into_inner().into())),
@@ -205,7 +221,7 @@ fn run_case(rec: &mut Rec, d: &Value) {
             }
             rec.nontrivial();
         }
-        // iterator scripts over one buffer; a step is [op, n] (0 next, 1 nth(n), 2 size_hint)
+        // iterator scripts over one buffer; a step is [op, n] (0 next, 1 nth(n), 2 size_hint, 3 count, 4 last, 5 fold: consuming, last step only)
         "it" => {
             rec.begin(d.clone());
             let buf = bytes_from(&d["buf"]);
@@ -302,6 +318,13 @@ fn rnd_script(rng: &mut Rng, n_items: usize, steps: usize) -> Value {
             }
             _ => desc_step(2, 0),
         });
+    }
+    // two thirds of the scripts end with a consuming observation of what remains
+    match rng.u32r(0, 5) {
+        0 | 1 => s.push(desc_step(3, 0)),
+        2 => s.push(desc_step(4, 0)),
+        3 => s.push(desc_step(5, 0)),
+        _ => {}
     }
     Value::Array(s)
 }
@@ -401,6 +424,7 @@ fn main() {
                             _ => desc_step(2, 0),
                         });
                     }
+                    s.push(desc_step(3 + rng.u32r(0, 2) as u8, 0));
                     scripts.push(Value::Array(s));
                 }
                 run_case(&mut rec, &json!({"k": "it", "bpp": bpp, "order": order, "buf": bytes_json(&buf), "scripts": scripts}));
